@@ -9,7 +9,7 @@ PROP = "C12"
 LEVEL = "model_checking"
 ANCHOR_PREFIXES = ["element::SvgElement::handle_containment", "element::SvgElement::inscribed_bbox", "element::SvgElement::position_from_bbox", "position::BoundingBox", "position::TrblLength",
                    "position::Length", "position::strp_length", "context::"]
-BOUNDS = ("container in {rect, circle, ellipse}; surround / inside lists of 1-3 references (inside: also three references of different kinds) to {rect, circle, ellipse, line, g, another surround}; margin with 0-4 values, absolute symbolic "
+BOUNDS = ("container in {rect, circle, ellipse}; surround / inside lists of 1-3 references (inside: also three references of different kinds) to {rect, circle, ellipse, line, g, another surround, a circle / ellipse / rect that leaves a centre or corner coordinate to its SVG default, a group whose content waits for a later element}; margin with 0-4 values, absolute symbolic "
           "(either sign for rect containers, >= 0 for circle/ellipse) or percent in {25%, 50%}; positions k/2 in [-128,128], sizes integers in [0,64], margins k/2 in [-16,16]; "
           "circle/ellipse enclosure decided over the real hull of the domain with relative slack 1.001 on r^2 (single-precision sqrt(2) factor); references that are themselves held back by a later anchor; the inside element is a proper box")
 ASSUMPTIONS = ["margin values map to top/right/bottom/left in CSS order (docs: attribute-ref.md#margin)", "percent margins are taken of max(width,height) of the union for surround and of min(width,height) of the intersection for inside (doc comment in position.rs; the property leaves the base to the documentation)",
@@ -32,6 +32,15 @@ def ref_markup(kind, i, k0):
         return f'<circle id="r{i}" cxy="{a[0]} {a[1]}" r="{a[2]}"/>', [(13 + off, *POS), (9 - off, *POS), (8, *SZ)]
     if kind == "ellipse":
         return f'<ellipse id="r{i}" cxy="{a[0]} {a[1]}" rxy="{a[2]} {a[3]}"/>', [(13 + off, *POS), (9 - off, *POS), (10, *SZ), (6, *SZ)]
+    if kind in ("circle-cx", "circle-cy", "circle-r"):
+        # SVG defaults: an absent centre coordinate is zero
+        c = {"circle-cx": f'cx="{a[0]}" ', "circle-cy": f'cy="{a[0]}" ', "circle-r": ""}[kind]
+        return f'<circle id="r{i}" {c}r="{a[1]}"/>', [(13 + off, *POS), (8, *SZ)]
+    if kind in ("ellipse-cx", "ellipse-cy"):
+        c = f'{kind[-2:]}="{a[0]}"'
+        return f'<ellipse id="r{i}" {c} rx="{a[1]}" ry="{a[2]}"/>', [(9 - off, *POS), (10, *SZ), (6, *SZ)]
+    if kind == "rect-x":
+        return f'<rect id="r{i}" x="{a[0]}" width="{a[1]}" height="{a[2]}"/>', [(3 + off, *POS), (20, *SZ), (10, *SZ)]
     if kind == "line":
         return f'<line id="r{i}" xy1="{a[0]} {a[1]}" xy2="{a[2]} {a[3]}"/>', [(3 + off, *POS), (14, *POS), (23, *POS), (4 - off, *POS)]
     if kind == "g":
@@ -128,6 +137,25 @@ def templates(tier, seed):
                 for mg in ("none", "a1", "p25"):
                     for order in ("held-before", "held-mid"):
                         tds.append(dict(fam=fam_, cont=cont, refs=list(refs), mg=mg, order=order))
+    # references that rely on SVG's zero default for one centre / corner coordinate
+    PART = ["circle-cx", "circle-cy", "circle-r", "ellipse-cx", "ellipse-cy", "rect-x"]
+    for fam_ in ("surround", "inside"):
+        for cont in ("rect", "circle", "ellipse"):
+            for p in PART:
+                for refs in ([p], [p, "rect"], ["rect", p]):
+                    if fam_ == "inside" and cont != "rect" and len(refs) > 1:
+                        continue
+                    for mg in ("none", "a2", "p25"):
+                        tds.append(dict(fam=fam_, cont=cont, refs=list(refs), mg=mg, order="after"))
+    # a listed group whose content waits for a later element
+    for fam_ in ("surround", "inside"):
+        for cont in ("rect", "circle", "ellipse"):
+            for refs in (["g"], ["g", "rect"], ["rect", "g"], ["g", "g"]):
+                if fam_ == "inside" and cont != "rect" and len(refs) > 1:
+                    continue
+                for mg in ("none", "a1"):
+                    for order in ("held-before", "held-mid", "held-after"):
+                        tds.append(dict(fam=fam_, cont=cont, refs=list(refs), mg=mg, order=order))
     tds.append(dict(fam="both", cont="rect", refs=["rect"], mg="none", order="after"))
     return tds
 
@@ -168,6 +196,8 @@ def build(td, wrong=False):
         anchor = '<rect id="anchor" x="0" y="0" width="0" height="0"/>'
         if td["order"] == "held-before":
             doc = "<svg>" + cm + "".join(held) + anchor + "</svg>"
+        elif td["order"] == "held-after":
+            doc = "<svg>" + "".join(held) + cm + anchor + "</svg>"
         else:
             doc = "<svg>" + held[0] + cm + "".join(held[1:]) + anchor + "</svg>"
     else:
@@ -228,11 +258,11 @@ def build(td, wrong=False):
         # inside
         ins = []
         for k, el, rb in zip(td["refs"], rels, rbs):
-            if cont == "rect" and k == "circle":
+            if cont == "rect" and k.startswith("circle"):
                 cx, cy, rr = o.num(el, "cx"), o.num(el, "cy"), o.num(el, "r", None)
                 d = mul(num(K_INV_SQRT2), rr)
                 ins.append(G.Box(minus(cx, d), minus(cy, d), plus(cx, d), plus(cy, d)))
-            elif cont == "rect" and k == "ellipse":
+            elif cont == "rect" and k.startswith("ellipse"):
                 cx, cy, rx, ry = o.num(el, "cx"), o.num(el, "cy"), o.num(el, "rx", None), o.num(el, "ry", None)
                 dx, dy = mul(num(K_INV_SQRT2), rx), mul(num(K_INV_SQRT2), ry)
                 ins.append(G.Box(minus(cx, dx), minus(cy, dy), plus(cx, dx), plus(cy, dy)))
@@ -249,7 +279,7 @@ def build(td, wrong=False):
             return obls + [Obl("geometry-when-intersection-nonempty", nonempty)]
         cb = G.elem_box(o, c)
         tol = "0.002"
-        mode = "real" if any(k != "rect" for k in td["refs"]) and cont == "rect" else "int"
+        mode = "real" if any(not k.startswith("rect") for k in td["refs"]) and cont == "rect" else "int"
         fits_margin = and_(le(Ib.x1, Ib.x2), le(Ib.y1, Ib.y2))
         # an element that lies within an area is a proper box
         obls.append(Obl("inside-proper-box", and_(nonempty, fits_margin, or_(lt(cb.w, "0.0"), lt(cb.h, "0.0"))), mode=mode))
